@@ -43,6 +43,7 @@ type Opts struct {
 	EdgeKeys    bool // connection references in every form: (a -> b).k, (a -> b)[i].k, c.(x -> y)[i].k, (a -> b)[*].k, with maps and flat keys
 	BlockBlank  bool // block strings (markdown, code, latex-free) with whitespace-only lines, tabs and deeper indentation
 	EmptyBoards bool // scenarios / steps / layers declared with an empty map, with a label and an empty map, or without a map
+	EdgeExtras  bool // connections with a border radius and with (tricky) labels on both arrowheads (mode render3)
 }
 
 type ObjMeta struct {
@@ -342,6 +343,18 @@ func (x *g) edges(ids []string, ind string, n int) {
 			x.sb.WriteString(" {\n")
 			x.styles(ind+"  ", true)
 			x.boundary(ind+"  ", true)
+			if x.o.EdgeExtras {
+				if x.p(50) {
+					fmt.Fprintf(&x.sb, "%s  style.border-radius: %s\n", ind, x.pick([]string{"0", "3", "10", "20"}))
+				}
+				if x.p(50) {
+					fmt.Fprintf(&x.sb, "%s  source-arrowhead.label: %s\n", ind, x.label())
+				}
+				if x.p(50) {
+					fmt.Fprintf(&x.sb, "%s  target-arrowhead: %s {shape: %s}\n", ind, x.label(), x.pick([]string{"triangle", "arrow", "diamond", "circle", "cf-one", "cf-many"}))
+				}
+				x.d.Feats = append(x.d.Feats, "edge-extras")
+			}
 			if x.o.EdgeLinks && x.p(50) {
 				if !labelled {
 					fmt.Fprintf(&x.sb, "%s  label: go\n", ind)
